@@ -242,6 +242,33 @@ func c09Programs(tier string) []c09prog {
 		}
 		out = append(out, pr)
 	}
+	// 3b. goderive pointed at a directory without source files, started in a directory whose
+	// own package has a derived.gen.go: only the named directory is a processed package
+	{
+		root := pkgFiles{"a.go": good, "derived.gen.go": "// Code generated by goderive DO NOT EDIT.\n\npackage m\n\n// placeholder of an earlier run\n"}
+		with := func(extra pkgFiles) pkgFiles {
+			fs := pkgFiles{}
+			for k, v := range root {
+				fs[k] = v
+			}
+			for k, v := range extra {
+				fs[k] = v
+			}
+			return fs
+		}
+		for _, v := range []struct {
+			name  string
+			extra pkgFiles
+			args  []string
+			only  string
+		}{
+			{"directory-with-only-a-derived-file", pkgFiles{"sub/derived.gen.go": "// Code generated by goderive DO NOT EDIT.\n\npackage sub\n"}, []string{"./sub"}, "sub"},
+			{"directory-with-only-an-external-test-file", pkgFiles{"xt/x_test.go": "package xt_test\n"}, []string{"./xt"}, "xt"},
+			{"directory-with-only-an-ignored-file", pkgFiles{"ig/x.go": "//go:build ignore\n\npackage ig\n"}, []string{"./ig"}, "ig"},
+		} {
+			out = append(out, c09prog{label: "started next to a generated package: " + v.name, class: "broken=" + v.name, plugin: "equal", call: "derive", files: with(v.extra), args: v.args, onlyIn: v.only})
+		}
+	}
 	// 4. several packages in one invocation, one of them with an unsupported call: the
 	// order in which the loader hands packages over is unspecified, so each layout is
 	// run several times
